@@ -69,27 +69,37 @@ def run_check(modname, tier, seed, only_case=None):
     check = importlib.import_module(modname)
     prop = check.ID
     t0 = time.time()
-    tasks = check.build(tier, seed)
-    order = list(range(len(tasks)))
-    if seed:
-        random.Random(seed).shuffle(order)
-    tasks = [tasks[i] for i in order]
-    budget = float(os.environ.get("MC_BUDGET_S", "0") or 0)
     capped = False
-    if budget:
-        # run in slices so that a wall-clock cap leaves a well-defined completed prefix
-        results = []
-        step = max(16, len(tasks) // 50)
-        i = 0
-        while i < len(tasks):
-            if time.time() - t0 > budget:
-                capped = True
-                break
-            results.extend(pool.run_tasks(check.run_task, tasks[i : i + step], timeout=getattr(check, "TASK_TIMEOUT", 900)))
-            i += step
+    budget = float(os.environ.get("MC_BUDGET_S", "0") or 0)
+    tmo = getattr(check, "TASK_TIMEOUT", 900)
+
+    def runner(ts):
+        return pool.run_tasks(check.run_task, ts, timeout=tmo)
+
+    if hasattr(check, "explore"):
+        pairs = check.explore(tier, seed, runner)
+        tasks = [t for t, _ in pairs]
+        results = [r for _, r in pairs]
         completed = len(results)
     else:
-        results = pool.run_tasks(check.run_task, tasks, timeout=getattr(check, "TASK_TIMEOUT", 900))
+        tasks = check.build(tier, seed)
+        order = list(range(len(tasks)))
+        if seed:
+            random.Random(seed).shuffle(order)
+        tasks = [tasks[i] for i in order]
+        if budget:
+            # run in slices so that a wall-clock cap leaves a well-defined completed prefix
+            results = []
+            step = max(16, len(tasks) // 50)
+            i = 0
+            while i < len(tasks):
+                if time.time() - t0 > budget:
+                    capped = True
+                    break
+                results.extend(runner(tasks[i : i + step]))
+                i += step
+        else:
+            results = runner(tasks)
         completed = len(results)
 
     agg = Agg()
